@@ -1073,8 +1073,9 @@ def _oracle_modes(self, rc, op, pre, post, real_out):
             dk = rc.key(k)
             # every requested object that the source holds is in the destination, with its bytes
             if dk not in post_rows and dk not in post.loose_bytes:
-                self._fail('C14', 'import-missing', f'object cid {k} ({self.pool.size(k)} bytes) was requested and is held by the source, '
-                                                    'but is not in the destination after the import')
+                for prop_ in ('C14', 'C02'):
+                    self._fail(prop_, 'import-missing', f'object cid {k} ({self.pool.size(k)} bytes) was requested and is held by the source, '
+                                                        'but is not in the destination after the import')
             elif dk in post_rows and dk not in pre_rows:
                 try:
                     got = post.recover(dk)
